@@ -608,6 +608,21 @@ func TestVerifC03(t *testing.T) {
 					}
 					continue
 				}
+				// observation class: verb of the last command and class of its (last) reply
+				{
+					verb := strings.SplitN(cmd, " ", 2)[0]
+					cls := "no reply (connection closed)"
+					for i := len(res.replies) - 1; i >= 0; i-- {
+						if strings.HasPrefix(res.replies[i], "S: ") && len(res.replies[i]) > 3 {
+							cls = res.replies[i][3:4] + "xx"
+							break
+						}
+						if strings.HasPrefix(res.replies[i], "C: ") {
+							break
+						}
+					}
+					r.Outcome(verb + " -> " + cls)
+				}
 				if res.ended {
 					r.Outcome("session-ended")
 					continue
